@@ -75,7 +75,8 @@ def run_seed(prop, sid):
             return "seed:" + sid, "skipped", "patch does not apply to the current tree", {}
         env = dict(os.environ, HEXLINT_REPO=tmp, HEXLINT_EVIDENCE_DIR=os.path.join(tmp, "ev"))
         c = subprocess.run([os.path.join(VERIF, "check"), prop], capture_output=True, text=True, env=env)
-        return "seed:" + sid, "ok" if c.returncode == 1 else "FAILED", "seeded-change", {prop: c.returncode}
+        # exit 2 = the analysis cannot follow the changed shape (undecided): recorded, but only a *silent pass* contradicts the expectation
+        return "seed:" + sid, "ok" if c.returncode == 1 else "undecided" if c.returncode == 2 else "FAILED", "seeded-change", {prop: c.returncode}
     finally:
         shutil.rmtree(tmp, ignore_errors=True)
 
@@ -92,7 +93,8 @@ def run_refactor(prop, rid):
             return "refactor:" + rid, "skipped", "patch does not apply to the current tree", {}
         env = dict(os.environ, HEXLINT_REPO=tmp, HEXLINT_EVIDENCE_DIR=os.path.join(tmp, "ev"))
         c = subprocess.run([os.path.join(VERIF, "check"), prop], capture_output=True, text=True, env=env)
-        return "refactor:" + rid, "ok" if c.returncode == 0 else "FAILED", "stored-refactoring", {prop: c.returncode}
+        # exit 2 = undecided (recorded); only a VIOLATION on a behaviour-preserving refactoring contradicts the expectation
+        return "refactor:" + rid, "ok" if c.returncode == 0 else "undecided" if c.returncode == 2 else "FAILED", "stored-refactoring", {prop: c.returncode}
     finally:
         shutil.rmtree(tmp, ignore_errors=True)
 
